@@ -481,3 +481,130 @@ Proof.
     exists e, es, cs. repeat (split; [assumption|]).
     intros Hr. destruct (J Hr) as (e' & es' & Ees & Ecs); [discriminate|]. inversion Ees; subst. reflexivity.
 Qed.
+
+(* ------------------------------------------------------------------ position in the input *)
+(* the lexer is at length a in str = a ++ rest; a plus sign just handed over is the last byte of a *)
+Definition PI (str : bytes) (r : Z) (l : lexer) : Prop :=
+  exists a, str = a ++ l_rest l /\ l_pos l = length a /\ (r = 43 -> exists a0, a = a0 ++ [43%N]).
+
+Lemma PI_adv str r l l' cs r' : PI str r l -> adv l l' cs -> rshape r cs r' -> PI str r' l'.
+Proof.
+  intros (a & E1 & E2 & E3) [A1 A2] R. exists (a ++ cs). split; [rewrite E1, A1, app_assoc; reflexivity|].
+  split; [rewrite A2, E2, app_length; reflexivity|].
+  intros H43. destruct (R H43) as [(Ec & Er)|(cs0 & Ec)].
+  - subst cs. rewrite app_nil_r. exact (E3 Er).
+  - exists (a ++ cs0). rewrite Ec, app_assoc. reflexivity.
+Qed.
+
+Lemma rshape_weaken r cs r' : rshape 0 cs r' -> rshape r cs r'.
+Proof. intros R H. destruct (R H) as [(_ & Hx)|Hc]; [discriminate | right; exact Hc]. Qed.
+
+Lemma rshape_app r a b r1 r' : (forall r0, rshape r0 a r1) -> rshape r1 b r' -> rshape r (a ++ b) r'.
+Proof.
+  intros Ra Rb H. destruct (Rb H) as [(Eb & Er)|(cs0 & Eb)].
+  - subst b. rewrite app_nil_r. destruct (Ra 0 Er) as [(_ & Hx)|Hc]; [discriminate | right; exact Hc].
+  - right. exists (a ++ cs0). rewrite Eb, app_assoc. reflexivity.
+Qed.
+
+(* ------------------------------------------------------------------ the stages *)
+Lemma skip_v_good fuel : forall l, l_inf l = false ->
+  l_inf (skip_v fuel l) = false /\
+  (l_err (skip_v fuel l) = false -> l_err l = false /\ exists cs, adv l (skip_v fuel l) cs).
+Proof.
+  induction fuel as [|f IH]; intros l Hi; cbn [skip_v].
+  - split; [exact Hi|]. intros He. split; [exact He|]. exists []. apply adv_nil; reflexivity.
+  - destruct (lex_peek l) as [pk l1] eqn:Ek. destruct (lex_peek_good l pk l1 Hi Ek) as (I1 & G1).
+    destruct (pk =? 118).
+    + destruct (lex_next l1) as [r2 l2] eqn:En. destruct (lex_next_good _ _ _ I1 En) as (I2 & G2).
+      destruct (IH l2 I2) as (I3 & G3). split; [exact I3|]. intros He.
+      destruct (G3 He) as (E2 & cs3 & A3). destruct (rshape_next _ _ _ I1 En E2) as (csn & An & _).
+      destruct (G2 E2) as (E1 & _). destruct (G1 E1) as (E0 & K1 & K2 & _).
+      split; [exact E0|]. exists (csn ++ cs3). apply (adv_trans l l2 _ csn cs3); [|exact A3].
+      destruct An as [A1 A2]. split; [rewrite <- K1; exact A1 | rewrite A2, K2; reflexivity].
+    + split; [exact I1|]. intros He. destruct (G1 He) as (E0 & K1 & K2 & _). split; [exact E0|].
+      exists []. apply adv_nil; assumption.
+Qed.
+
+Lemma pf_prefix_good sy str : l_inf (pf_prefix sy false str) = false /\
+  (l_err (pf_prefix sy false str) = false -> PI str 0 (pf_prefix sy false str)).
+Proof.
+  set (l0 := {| l_rest := str; l_pos := 0; l_last := []; l_err := false; l_inf := false |}).
+  assert (P0 : PI str 0 l0) by (exists []; repeat split; intros; discriminate).
+  assert (I0 : l_inf l0 = false) by reflexivity.
+  unfold pf_prefix. fold l0. destruct sy; try (split; [exact I0 | intros _; exact P0]).
+  - destruct (lex_next l0) as [r l1] eqn:En. destruct (lex_next_good _ _ _ I0 En) as (I1 & G1).
+    destruct (r =? 118).
+    + split; [exact I1|]. intros He. destruct (rshape_next _ _ _ I0 En He) as (cs & A & R & _).
+      exact (PI_adv str 0 l0 l1 cs 0 P0 A ltac:(intros H; discriminate)).
+    + cbn. split; [exact I1 | intros; discriminate].
+  - destruct (skip_v_good (S (length str)) l0 I0) as (I1 & G1). split; [exact I1|]. intros He.
+    destruct (G1 He) as (_ & cs & A). exact (PI_adv str 0 l0 _ cs 0 P0 A ltac:(intros H; discriminate)).
+  - destruct (lex_peek l0) as [pk l1] eqn:Ek. destruct (lex_peek_good l0 pk l1 I0 Ek) as (I1 & G1).
+    destruct ((pk =? 118) || (pk =? 86)).
+    + destruct (lex_next l1) as [r2 l2] eqn:En. destruct (lex_next_good _ _ _ I1 En) as (I2 & G2).
+      cbn [snd]. split; [exact I2|]. intros He. destruct (rshape_next _ _ _ I1 En He) as (cs & A & _).
+      destruct (G2 He) as (E1 & _). destruct (G1 E1) as (_ & K1 & K2 & _).
+      apply (PI_adv str 0 l0 l2 cs 0 P0); [|intros H; discriminate].
+      destruct A as [A1 A2]. split; [rewrite <- K1; exact A1 | rewrite A2, K2; reflexivity].
+    + split; [exact I1|]. intros He. destruct (G1 He) as (_ & K1 & K2 & _).
+      apply (PI_adv str 0 l0 l1 [] 0 P0); [apply adv_nil; assumption | intros H; discriminate].
+Qed.
+
+Definition nums_wf (sy : system) (nums : list Z) : Prop :=
+  Forall (numval_ok sy) nums /\ lenok sy (length nums) = true /\ nums <> [] /\
+  (sys_eqb sy SNuGet = true -> length nums = 4%nat -> get_num nums 3 <> 0).
+
+Lemma lenok_one sy : lenok sy 1 = true. Proof. destruct sy; reflexivity. Qed.
+
+Lemma nuget_trim_wf sy nums : Forall (numval_ok sy) nums -> lenok sy (length nums) = true -> nums <> [] ->
+  nums_wf sy (nuget_trim sy nums).
+Proof.
+  intros W1 W2 W3. unfold nuget_trim.
+  destruct (sys_eqb sy SNuGet) eqn:EN; cbn [andb].
+  2:{ split; [exact W1|]. split; [exact W2|]. split; [exact W3|]. intros Hx; congruence. }
+  destruct (Nat.eqb_spec (length nums) 4) as [E4|E4]; cbn [andb].
+  2:{ split; [exact W1|]. split; [exact W2|]. split; [exact W3|]. intros _ Hx. contradiction. }
+  destruct (Z.eqb_spec (get_num nums 3) 0) as [Ez|Ez].
+  2:{ split; [exact W1|]. split; [exact W2|]. split; [exact W3|]. intros _ _. exact Ez. }
+  destruct nums as [|a [|b [|c [|d [|? ?]]]]]; try discriminate.
+  inversion W1 as [|? ? Wa W1']; inversion W1' as [|? ? Wb W1'']; inversion W1'' as [|? ? Wc _]; subst.
+  cbn [firstn]. split; [constructor; [assumption|constructor; [assumption|constructor; [assumption|constructor]]]|].
+  split; [destruct sy; try discriminate; reflexivity|]. split; [discriminate|]. intros _ Hx. discriminate.
+Qed.
+
+Lemma pf_numbers_good sy str l1 r p2 : l_inf l1 = false -> pf_numbers sy str l1 = Some (r, p2) ->
+  l_inf (ps_lex p2) = false /\ ps_pre p2 = [] /\ ps_build p2 = [] /\
+  (l_err (ps_lex p2) = false -> l_err l1 = false /\ nums_wf sy (ps_num p2) /\
+     exists cs, adv l1 (ps_lex p2) cs /\ rshape 0 cs r).
+Proof.
+  intros Hi. unfold pf_numbers.
+  set (p0 := {| ps_lex := l1; ps_num := []; ps_pre := []; ps_is_pre := false; ps_build := [] |}).
+  destruct (parse_number sy p0) as [ok p1] eqn:Ep.
+  destruct (parse_number_good sy p0 ok p1 Hi Ep) as (I1 & (M1a & M1b & M1c) & G1).
+  destruct ok; cbn [negb]; [|discriminate].
+  destruct (lex_next (ps_lex p1)) as [r1 l2] eqn:En.
+  destruct (lex_next_good _ _ _ I1 En) as (I2 & G2).
+  destruct (numbers_loop sy (S (length str)) (with_lex p1 l2) r1) as [r' p2'] eqn:Eloop.
+  destruct (numbers_loop_good sy _ (with_lex p1 l2) r1 r' p2' I2 Eloop) as (I3 & (M3a & M3b & M3c) & G3).
+  cbn [with_lex ps_lex ps_num ps_pre ps_is_pre ps_build] in M3a, M3c, G3.
+  intros H. injection H as Hr Hp. subst r'.
+  assert (X : ps_lex p2 = ps_lex p2' /\ ps_pre p2 = ps_pre p2' /\ ps_build p2 = ps_build p2' /\
+              ps_num p2 = nuget_trim sy (ps_num p2')).
+  { rewrite <- Hp. unfold nuget_trim.
+    destruct (sys_eqb sy SNuGet && Nat.eqb (length (ps_num p2')) 4 && (get_num (ps_num p2') 3 =? 0)); repeat split. }
+  destruct X as (X1 & X2 & X3 & X4). rewrite X1, X2, X3, X4.
+  split; [exact I3|]. split; [rewrite M3a, M1a; reflexivity|]. split; [rewrite M3c, M1c; reflexivity|].
+  intros He. destruct (G3 He) as (E2 & vs & cs2 & N2 & F2 & L2 & A2 & R2).
+  destruct (rshape_next _ _ _ I1 En E2) as (csn & An & Rn & _).
+  destruct (G2 E2) as (E1 & _). destruct (G1 E1) as (E0 & cs1 & A1 & v & N1 & V1 & _).
+  split; [exact E0|]. cbn [ps_num p0 app] in N1.
+  split.
+  { apply nuget_trim_wf.
+    - rewrite N2, N1. constructor; assumption.
+    - apply L2. rewrite N1. apply lenok_one.
+    - rewrite N2, N1. discriminate. }
+  exists ((cs1 ++ csn) ++ cs2). split; [rewrite <- app_assoc; exact (adv_trans _ _ _ _ _ A1 (adv_trans _ _ _ _ _ An A2))|].
+  apply rshape_app with (r1 := r1); [|exact R2].
+  intros r0 H43. destruct (Rn 0 H43) as [(_ & Hx)|(cs0 & Ec)]; [discriminate|].
+  right. exists (cs1 ++ cs0). rewrite Ec, app_assoc. reflexivity.
+Qed.
